@@ -23,6 +23,11 @@ SPEC = dict(
          'direct/symlink x 7 changes x failing/succeeding; also inside the random sequences), followed by an ordinary call. '
          'api 5 = the real initializeSensors on a configuration whose only cmd sensor is used by no curve (it IS executed at '
          'start-up), and the configuration variant with such a leftover cmd sensor through Validate. '
+         'Executables named by RELATIVE paths (the harness process chdirs into its work directory): c<n>/f, ./c<n>/f, '
+         'c<n>/../c<n>/f, direct and via symlink, 6 apis x 5 attribute sets, with and without a hostile decoy (owner 4242, '
+         'mode 0777) planted at c<n>/c<n>/f where a resolution against the directory of the executable would look; and by a '
+         'BARE command name with a symlink of that name in the working directory and no / a hostile / a root-controlled / an '
+         'only file of that name in a private directory in front of $PATH. Decoys record their start like every script. '
          'EVERY start of a script appends its id and stat -L of its own path to a marker file, so the observation is the list '
          'of starts inside one call with the attributes at each start. Non-trivial = at least one call on a path that leads to an '
          'existing file; distinct = distinct (operations, observations) terms.',
@@ -30,11 +35,14 @@ SPEC = dict(
         'stat(2)/readlink(2) report what the harness set with chown/chmod/symlink (file system = finite map path -> node)',
         'filepath.EvalSymlinks follows at most 255 links, the kernel at most 40 (model constants go_maxlinks, kernel_maxlinks; '
         'both boundaries are exercised on the real code)',
+        'a bare command name denotes the first executable file of that name in $PATH (exec.LookPath); the driver states per case '
+        'which file that is (in_path)',
         'root may start a file iff one of the execute bits 0o111 is set (has_exec); files are well-formed scripts',
         'a change of the tree BETWEEN the check and the single start inside one call (inherent check-then-exec window; '
         'exec.Command is given the original path) is outside the property as stated; a change WHILE the started command runs '
         'is covered (OpExecDuring: one check and at most one start per call)',
     ],
+    defects_repaired=['D25 (1cc26ca): bare command name checked in the working directory but started from $PATH'],
     trusted_base=[
         'axiom-free (Print Assumptions: Closed under the global context for every C18 theorem)',
         'hand-written model of CheckFilePermissionsForExecution / SafeCmdExecution call order / validateConfig in Model/Exec.v; '
